@@ -88,12 +88,73 @@ def blocked_all(R, ro, rule):
         R.check(ok, rule, key, site, "is_blocked == any(dependency not computed) over all of self._dependencies",
                 "is_blocked is not 'some dependency is uncomputed' over the whole dependency list")
         return
-    loops = [n for n in ast.walk(ib.node) if isinstance(n, ast.For) and q.dotted(n.iter) == "self._dependencies" and isinstance(n.target, ast.Name)]
+    def is_deps(e):
+        if q.dotted(e) == "self._dependencies":
+            return True
+        if isinstance(e, ast.Name):
+            vals_ = assigned_values(ib.node, e.id)
+            return bool(vals_) and all(k_ == "expr" and q.dotted(v_) == "self._dependencies" for k_, v_ in vals_)
+        return False
+    # fast paths for short lists (`if length == 2: return <expr over deps[0], deps[1]>`): each is decided by its truth table over
+    # "deps[i] is computed" - it has to equal "some dependency is uncomputed"
+    len_names = set(t.id for n in q.scope_nodes(ib.node) if isinstance(n, ast.Assign) and isinstance(n.value, ast.Call) and q.call_name(n.value) == "len"
+                    and n.value.args and is_deps(n.value.args[0]) for t in n.targets if isinstance(t, ast.Name))
+
+    def fast_k(test):
+        if isinstance(test, ast.Compare) and len(test.ops) == 1 and isinstance(test.ops[0], ast.Eq):
+            a, b = test.left, test.comparators[0]
+            for x, y in ((a, b), (b, a)):
+                if isinstance(y, ast.Constant) and isinstance(y.value, int) and ((isinstance(x, ast.Name) and x.id in len_names) or
+                                                                               (isinstance(x, ast.Call) and q.call_name(x) == "len" and x.args and is_deps(x.args[0]))):
+                    return y.value
+        return None
+
+    def ev(e, env):
+        if isinstance(e, ast.Constant) and isinstance(e.value, bool):
+            return e.value
+        if isinstance(e, ast.UnaryOp) and isinstance(e.op, ast.Not):
+            v = ev(e.operand, env)
+            return None if v is None else not v
+        if isinstance(e, ast.BoolOp):
+            vs = [ev(v, env) for v in e.values]
+            if any(v is None for v in vs):
+                return None
+            return all(vs) if isinstance(e.op, ast.And) else any(vs)
+        if isinstance(e, ast.Call) and q.attr_call(e)[1] == "is_computed" and isinstance(q.attr_call(e)[0], ast.Subscript):
+            sub = q.attr_call(e)[0]
+            if is_deps(sub.value) and isinstance(sub.slice, ast.Constant) and isinstance(sub.slice.value, int) and sub.slice.value in env:
+                return env[sub.slice.value]
+        return None
+    import itertools
+    fast_returns = set()
+    for st in [n for n in ast.walk(ib.node) if isinstance(n, ast.If)]:
+        k_ = fast_k(st.test)
+        if k_ is None or not (0 <= k_ <= 4):
+            continue
+        rets_ = [x for x in st.body if isinstance(x, ast.Return)]
+        fast_returns.update(id(x) for x in rets_)
+        if len(rets_) != 1 or len(st.body) != 1:
+            raise AnalysisError("idiom: the short-list arm of is_blocked (`%s`) is not a single return" % q.src(st.test))
+        bad_env = None
+        for bits in itertools.product([True, False], repeat=k_):
+            env = dict(enumerate(bits))
+            got = ev(rets_[0].value, env) if rets_[0].value is not None else False
+            if got is None:
+                raise AnalysisError("idiom: the short-list arm of is_blocked returns an expression that is not a boolean combination of is_computed() tests")
+            if got != any(not b for b in bits):
+                bad_env = bits
+                break
+        R.check(bad_env is None, rule, key + ":fast:%d" % k_, R.site(ib, st),
+                "for %d dependencies is_blocked() is true exactly when one of them is uncomputed" % k_,
+                "the fast path of is_blocked() for %d dependencies returns %s when the dependencies are %s: a task that still waits for something counts as "
+                "runnable, is continued, and unwrap() computes the missing future by a nested synchronous evaluation (a batch is flushed early)"
+                % (k_, not any(not b for b in (bad_env or ())), ", ".join("computed" if b else "uncomputed" for b in (bad_env or ()))))
+    loops = [n for n in ast.walk(ib.node) if isinstance(n, ast.For) and is_deps(n.iter) and isinstance(n.target, ast.Name)]
     R.need(len(loops) == 1, "idiom: AsyncTask.is_blocked is neither a loop over self._dependencies nor any(...)")
     loop = loops[0]
     lv = loop.target.id
     head = kit.one(cfg.nodes_for(loop), "loop header")
-    rets = [n for n in cfg.nodes if n.kind == "stmt" and isinstance(n.ast, ast.Return)]
+    rets = [n for n in cfg.nodes if n.kind == "stmt" and isinstance(n.ast, ast.Return) and id(n.ast) not in fast_returns]
     truthy, falsy = [], []
     for n in rets:
         v = n.ast.value
@@ -185,6 +246,40 @@ def step_only_unblocked(R, ro, rule):
                 "the task is continued only on the not-blocked edge of %s.is_blocked()" % arg,
                 "a task can be continued while one of the futures it yielded is still uncomputed",
                 cfg.fmt_path(p) if p else None)
+    # inside the task's own driver a further step (the loop around the stepper) is taken only when the task yielded nothing to wait
+    # for: with a non-empty dependency list the driver hands control back to the scheduler.  "Some of them are computed already" is
+    # not enough: the next unwrap() would compute the others by nested synchronous evaluation (a batch flushed out of turn)
+    drv = ro.step_method_task()
+    dcfg = cfg_of(drv)
+    stepper = ro.generator_step_fn()
+    step_nodes = [n for n, c in ro.calls_to(drv, [stepper])]
+    heads = [x for x in dcfg.nodes if x.kind == "loop"]
+    if step_nodes and heads:
+        def no_deps_edge(e):
+            nd = dcfg.nodes[e.src]
+            if nd.kind != "test":
+                return False
+            k, s_, pos = q.atom_test(nd.ast)
+            txt = " ".join(s_) if isinstance(s_, tuple) else str(s_)
+            if "self._dependencies" not in txt:
+                return False
+            if k == "lt" and isinstance(s_, tuple) and s_[0] == "0" and s_[1] == "len(self._dependencies)":      # 0 < len(deps)
+                return e.label == ("F" if pos else "T")
+            if k == "truth" and s_ in ("self._dependencies", "len(self._dependencies)"):
+                return e.label == ("F" if pos else "T")
+            if k == "eq" and isinstance(s_, tuple) and set(s_) == set(["0", "len(self._dependencies)"]):
+                return e.label == ("T" if pos else "F")
+            return False
+        after = [e.dst for n in step_nodes for e in dcfg.out_edges(n.id, N) if e.label != "exc"]
+        flag_names = set(t.id for x in ast.walk(drv.node) if isinstance(x, ast.Assign) and isinstance(x.value, ast.Constant) and isinstance(x.value.value, bool)
+                         for t in x.targets if isinstance(t, ast.Name))
+        p = dcfg.find_path_flags(after, step_nodes, flag_names, N, keep_edge=lambda e: not no_deps_edge(e), cut_nodes=[dcfg.exit])
+        # completion also allows another round? no: a computed task returns; only the no-dependencies edge may loop
+        R.check(p is None, rule, "%s:restep" % drv.qualname, R.site(drv),
+                "the driver takes another step on its own only when the dependency list is empty",
+                "the driver can loop back and step the generator again although the task just yielded futures (the test is not `no dependencies`): the "
+                "pending ones are computed by unwrap() through nested synchronous evaluation - their batches are flushed while other tasks could still run",
+                dcfg.fmt_path(p) if p else None)
     # the step itself happens on the task the method was given
     st = ro.step_method_task()
     for n, c in ro.calls_to(ct, [st]):
@@ -677,6 +772,25 @@ def unwind_pauses(R, ro, rule):
                         "an uncomputed, suspended AsyncTask among the dropped entries does get its contexts paused",
                         "the pause of a dropped task's contexts is only reachable for entries that are not tasks, are computed or are running: the tasks it is "
                         "meant for keep their contexts resumed")
+                # ... nor a task that lies below an executing one (walking down from the top of the stack: once an executing task has
+                # been passed, everything further down is waiting for it): its contexts are meant to be active while that task's code runs,
+                # pausing them restores their saved values underneath the running task's own overrides (not nested), and the loops still
+                # waiting for those tasks resume them again later
+                run_succ = []
+                for x in cfg.nodes:
+                    if x.kind == "test":
+                        k_, s_, pos_ = q.atom_test(x.ast)
+                        if k_ == "truth" and isinstance(s_, str) and s_.endswith(".running") and s_.split(".")[0] in aliases and any(x.ast is y or x.stmt is y for y in ast.walk(n.ast)):
+                            run_succ += [e.dst for e in cfg.out_edges(x.id, N) if e.label == ("T" if pos_ else "F")]
+                if run_succ and rev:
+                    flag_names = set(t.id for x in ast.walk(d.node) if isinstance(x, ast.Assign) and isinstance(x.value, ast.Constant) and isinstance(x.value.value, bool)
+                                     for t in x.targets if isinstance(t, ast.Name))
+                    pb = cfg.find_path_flags(run_succ, cn, flag_names, N)
+                    R.check(pb is None, rule, d.qualname + ":below-running:" + str(lower), R.site(d, c),
+                            "once an executing task has been passed on the way down the stack, no further task is paused",
+                            "a waiting task below an executing one (it awaits the task that made the synchronous call we are unwinding from) still has its contexts "
+                            "paused: its saved values are written back underneath the running task's own overrides - the running task reads the outer value inside "
+                            "its own with-block - and the task is resumed again when the loop waiting for it goes on", cfg.fmt_path(pb) if pb else None)
                 pr = kit.path_avoiding_guard(cfg, cn, not_running, N)
                 R.check(pr is None, rule, d.qualname + ":not-running:" + str(lower), R.site(d, c),
                         "a task that is executing at that moment keeps its contexts",
@@ -899,6 +1013,77 @@ def typed_stack_elements(R, ro, rule):
                 "%s.%s binds `%s`, which scheduler.pxd types as %s, directly to an entry of the task stack, while the scheduler itself tests "
                 "isinstance(entry, %s): the stack also holds batch items and lazy futures, and in the compiled build the first such entry "
                 "raises TypeError here (the pure-Python build is unaffected)" % (ts.name, fn.name, name, t.name if t else "?", t.name if t else "?"))
+    return n
+
+
+MUTATING = ("add", "discard", "remove", "pop", "popitem", "clear", "update", "setdefault", "append", "extend", "insert", "__setitem__", "__delitem__")
+
+
+def no_mutation_while_iterating(R, rule, classes):
+    """A for loop that iterates a set or dict held in a field does not change that very container in its body (add / discard / remove /
+    pop / clear / item stores): CPython raises "changed size during iteration" at the next step - out of the scheduler, in the middle of
+    whatever it was doing.  The loop iterates a copy, or collects what to remove and removes it afterwards."""
+    n = 0
+    for cq in classes:
+        cls = R.repo.cls(cq)
+        for m in cls.methods.values():
+            for lp in [x for x in q.scope_nodes(m.node) if isinstance(x, ast.For)]:
+                it = lp.iter
+                # direct iteration of self.<field> or of a live view of it (.values()/.items()/.keys(), reversed(view)); a copy is fine
+                e = it
+                while isinstance(e, ast.Call) and (q.call_name(e) in ("reversed", "iter", "enumerate") and e.args or q.attr_call(e)[1] in ("values", "items", "keys")):
+                    e = e.args[0] if q.call_name(e) in ("reversed", "iter", "enumerate") else q.attr_call(e)[0]
+                d = q.dotted(e)
+                if not d or not d.startswith("self.") or d.count(".") != 1:
+                    continue
+                t_, owner = cls.field_type(d[5:]) if hasattr(cls, "field_type") else (None, None)
+                n += 1
+                muts = []
+                for st in lp.body:
+                    for x in ast.walk(st):
+                        if isinstance(x, (ast.FunctionDef, ast.AsyncFunctionDef, ast.Lambda)):
+                            continue
+                        if isinstance(x, ast.Call) and q.attr_call(x)[1] in MUTATING and q.dotted(q.attr_call(x)[0]) == d:
+                            muts.append(x)
+                        if isinstance(x, ast.Subscript) and isinstance(x.ctx, (ast.Store, ast.Del)) and q.dotted(x.value) == d:
+                            muts.append(x)
+                R.check(not muts, rule, "%s:%s" % (m.qualname, d), R.site(m, lp),
+                        "%s is not changed while %s iterates it" % (d, m.name),
+                        "%s changes %s (`%s`) inside the loop that iterates it: the next iteration step raises RuntimeError (changed size during iteration) out "
+                        "of the scheduler - whatever was waiting (an item's error to be delivered, sibling tasks) is lost with it"
+                        % (m.qualname, d, q.src(muts[0])[:50] if muts else ""))
+    return n
+
+
+def int_identity(R, rule, functions):
+    """`is` / `is not` between a counter and a bound compares object identity: CPython shares int objects only in -5..256, so the
+    test is true for small numbers and false for equal larger ones - a loop that gives up `if tries is max_tries` never gives up for a
+    limit above 256."""
+    n = 0
+    for f in functions:
+        counters = set()
+        for x in ast.walk(f.node):
+            if isinstance(x, ast.AugAssign) and isinstance(x.target, ast.Name) and isinstance(x.op, (ast.Add, ast.Sub)):
+                counters.add(x.target.id)
+            if isinstance(x, ast.Assign) and isinstance(x.value, ast.Constant) and isinstance(x.value.value, int) and not isinstance(x.value.value, bool):
+                counters.update(t.id for t in x.targets if isinstance(t, ast.Name))
+            if isinstance(x, ast.For) and isinstance(x.iter, ast.Call) and q.call_name(x.iter) in ("range", "enumerate"):
+                tg = x.target.elts[0] if isinstance(x.target, ast.Tuple) and q.call_name(x.iter) == "enumerate" else x.target
+                if isinstance(tg, ast.Name):
+                    counters.add(tg.id)
+        for x in ast.walk(f.node):
+            if isinstance(x, ast.Compare) and len(x.ops) == 1 and isinstance(x.ops[0], (ast.Is, ast.IsNot)):
+                a, b = x.left, x.comparators[0]
+                if any(isinstance(y, ast.Constant) and (y.value is None or isinstance(y.value, bool)) for y in (a, b)):
+                    continue
+                names = set(y.id for side in (a, b) for y in ast.walk(side) if isinstance(y, ast.Name))
+                arith = any(isinstance(y, ast.BinOp) for side in (a, b) for y in ast.walk(side))
+                if names & counters or arith:
+                    n += 1
+                    R.violation(rule, "%s:%s" % (f.qualname, q.src(x)[:40]), R.site(f, x),
+                                "`%s` compares numbers by identity: equal ints are the same object only for small values (-5..256), so the test never succeeds for a "
+                                "larger bound - e.g. a retry loop that should give up after max_tries attempts runs for ever (or re-raises nothing) when max_tries > 256"
+                                % q.src(x)[:60])
     return n
 
 
